@@ -78,6 +78,13 @@ class World(object):
         # toy family: filter posterior
         y = np.array([[[1.0, 2.0, 1.5]], [[1.4, 2.6, 1.1]]])
         self.obj['filter'] = chi.GaussianKDEFilter(y)
+        self.obj['filterG'] = chi.GaussianFilter(y)
+        self.obj['filterLN'] = chi.LogNormalFilter(y)
+        self.obj['filterLNKDE'] = chi.LogNormalKDEFilter(y)
+        self.obj['filterGM'] = chi.GaussianMixtureFilter(y, n_kernels=2)
+        self.obj['filterC'] = chi.ComposedPopulationFilter([
+            chi.GaussianMixtureFilter(y[..., :2], n_kernels=2),
+            chi.GaussianFilter(y[..., 2:])])
         fpop = popbuild.build(rp.Comp([rp.LN(1), rp.P(1)]), None)
         self.obj['fpost'] = chi.PopulationFilterLogPosterior(
             chi.GaussianFilter(y), [0.5, 2.0, 1.0], ToyModel(2, 1), fpop,
@@ -94,8 +101,10 @@ POINTS = {
                        0.3, 0.1, 0.4, 0.8, 0.3, -0.5, 0.3]),
              np.array([0.7, -0.4, 0.9, 1.3, 0.2, 0.4,
                        0.1, 0.2, 0.5, 0.9, 0.2, -0.7, 0.4])],
-    'filter': [np.array([[[1.2, 2.2, 1.0]], [[0.8, 1.9, 1.6]], [[1.5, 2.8, 1.2]]]),
-               np.array([[[0.9, 2.4, 1.3]], [[1.1, 2.0, 0.9]], [[1.6, 3.1, 1.5]]])],
+    'filter': [np.array([[[1.2, 2.2, 1.0]], [[0.8, 1.9, 1.6]], [[1.5, 2.8, 1.2]],
+                         [[1.1, 2.5, 1.4]]]),
+               np.array([[[0.9, 2.4, 1.3]], [[1.1, 2.0, 0.9]], [[1.6, 3.1, 1.5]],
+                         [[1.3, 2.7, 1.0]]])],
     'fpost': [np.array([0.2, 0.5, 1.1, 1.2, 0.9, 1.6, 0.1, -0.3, 0.4, 0.2, -0.1,
                         0.5, -0.4, 0.3, 0.0]),
               np.array([0.4, 0.3, 0.8, 1.0, 1.5, 0.7, -0.2, 0.1, 0.3, -0.5, 0.6,
@@ -104,8 +113,10 @@ POINTS = {
 
 
 def ptype(name):
+    if name.startswith('filter'):
+        return 'filter'
     return {'llA': 'll', 'llB': 'll', 'postA': 'll', 'postB': 'll', 'hier': 'hier',
-            'filter': 'filter', 'fpost': 'fpost'}[name]
+            'fpost': 'fpost'}[name]
 
 
 def all_ops():
@@ -120,6 +131,9 @@ def all_ops():
     for k in (0, 1):
         ops.append(['fll', 'filter', k])
         ops.append(['fS1', 'filter', k])
+    for name in ('filterG', 'filterLN', 'filterLNKDE', 'filterGM', 'filterC'):
+        ops.append(['fll', name, 0])
+        ops.append(['fS1', name, 0])
     ops.append(['sample', 'pred', 3])
     ops.append(['sample', 'pred', 4])
     ops.append(['init', 'postA', 3])
